@@ -25,7 +25,7 @@ func checkC17(p *Program, r *Reporter) {
 	}
 	finalName := "manifest_timeline_nr.mpd"
 	// (a) atomic publication
-	r.Rule("E5-ATOMIC", "timeline MPD published by rename of a completely written and closed temporary file", 5)
+	r.Rule("E5-ATOMIC", "timeline MPD published by rename of a completely written and closed temporary file", 1)
 	pathUsesFinalName := func(v ssa.Value) (uses bool, suffixed bool) {
 		sliceVisitIntra(p, v, func(x ssa.Value) {
 			if s, ok := constString(x); ok {
@@ -69,52 +69,159 @@ func checkC17(p *Program, r *Reporter) {
 			}
 		}
 	}
-	if rename == nil {
-		r.Violate("E5-ATOMIC", shortFn(gen), "rename", p.pos(gen.Pos()), "the timeline MPD is no longer published by os.Rename onto its final name", nil)
-	} else {
-		var create, write *ssa.Call
-		var closes []*ssa.Call
-		for _, b := range gen.Blocks {
-			for _, in := range b.Instrs {
-				c, ok := in.(*ssa.Call)
-				if !ok || c.Call.StaticCallee() == nil {
-					continue
-				}
-				switch {
-				case c.Call.StaticCallee().String() == "os.Create":
-					create = c
-				case c.Call.StaticCallee().Name() == "Write" && strings.Contains(c.Call.StaticCallee().String(), "dash-mpd/mpd.MPD"):
-					write = c
-				case c.Call.StaticCallee().Name() == "finalClose" || c.Call.StaticCallee().String() == "(*os.File).Close":
-					closes = append(closes, c)
-				}
-			}
+	// writesCompletely: function fn creates the file named by value `path`, writes the document with its error
+	// returned, and closes the file (deferred, or before every success return). Returns the create call.
+	isCloseCall := func(in ssa.Instruction) bool {
+		var cc *ssa.CallCommon
+		switch x := in.(type) {
+		case *ssa.Call:
+			cc = &x.Call
+		case *ssa.Defer:
+			cc = &x.Call
+		default:
+			return false
 		}
-		okCreate := create != nil && instrDominates(create, rename)
-		r.Decide(okCreate, "E5-ATOMIC", shortFn(gen), "create-before-rename", p.pos(rename.Pos()), "the temporary file is created on every path to the rename", "the rename is reachable without creating the temporary file", nil)
-		okWrite := false
-		if write != nil && instrDominates(write, rename) {
-			for _, e := range errorValuesOfCall(write) {
-				for _, cd := range condsAt(rename) {
-					if is, nonNilOnTrue := nilTest(cd.V, e); is && nonNilOnTrue != cd.Pos {
-						okWrite = true
+		callee := cc.StaticCallee()
+		return callee != nil && (callee.Name() == "finalClose" || callee.String() == "(*os.File).Close")
+	}
+	writesCompletely := func(fn *ssa.Function, isPath func(ssa.Value) bool) (bool, string) {
+		var create, write *ssa.Call
+		deferredClose := false
+		var closes []ssa.Instruction
+		for _, b := range fn.Blocks {
+			for _, in := range b.Instrs {
+				if c, ok := in.(*ssa.Call); ok && c.Call.StaticCallee() != nil {
+					switch {
+					case c.Call.StaticCallee().String() == "os.Create" && isPath(c.Call.Args[0]):
+						create = c
+					case c.Call.StaticCallee().Name() == "Write" && strings.Contains(c.Call.StaticCallee().String(), "dash-mpd/mpd.MPD"):
+						write = c
+					}
+				}
+				if isCloseCall(in) {
+					if _, isDefer := in.(*ssa.Defer); isDefer {
+						deferredClose = true
+					} else {
+						closes = append(closes, in)
 					}
 				}
 			}
 		}
-		r.Decide(okWrite, "E5-ATOMIC", shortFn(gen), "written-before-rename", p.pos(rename.Pos()), "the document was written without error on every path to the rename",
-			"the rename is reachable although writing the document failed or did not happen: a truncated MPD is published", nil)
-		okClose := false
-		for _, c := range closes {
-			if instrDominates(c, rename) && write != nil && instrDominates(write, c) {
-				okClose = true
+		if create == nil {
+			return false, "no os.Create of the temporary file"
+		}
+		if write == nil || !instrDominates(create, write) {
+			return false, "the document is not written after the file was created"
+		}
+		for _, e := range errorValuesOfCall(write) {
+			if e == nil {
+				return false, "the error of writing the document is discarded"
+			}
+			if ok, why := errorReturnedWhenNonNil(e); !ok {
+				return false, "the error of writing the document is not returned: " + why
 			}
 		}
-		r.Decide(okClose, "E5-ATOMIC", shortFn(gen), "closed-before-rename", p.pos(rename.Pos()), "the temporary file is closed after writing and before the rename",
-			"the temporary file is not closed between writing and renaming on every path", nil)
-		if create != nil {
-			_, suffixed := pathUsesFinalName(create.Call.Args[0])
-			r.Decide(suffixed, "E5-ATOMIC", shortFn(gen), "temporary-name", p.pos(create.Pos()), "the file written is the temporary one", "the file created for writing is not the temporary name", nil)
+		if deferredClose {
+			return true, "created, written (error returned), closed by a deferred call"
+		}
+		// explicit close before every success return
+		for _, b := range fn.Blocks {
+			ret, ok := b.Instrs[len(b.Instrs)-1].(*ssa.Return)
+			if !ok {
+				continue
+			}
+			last := ret.Results[len(ret.Results)-1]
+			if !isNilConst(last) {
+				continue
+			}
+			closed := false
+			for _, c := range closes {
+				if instrDominates(c, ret) && instrDominates(write, c) {
+					closed = true
+				}
+			}
+			if !closed {
+				return false, "a successful return is reachable without closing the file"
+			}
+		}
+		return true, "created, written (error returned), closed before returning"
+	}
+	if rename == nil {
+		r.Violate("E5-ATOMIC", shortFn(gen), "rename", p.pos(gen.Pos()), "the timeline MPD is no longer published by os.Rename onto its final name", nil)
+	} else {
+		isTmp := func(v ssa.Value) bool { _, suffixed := pathUsesFinalName(v); return suffixed }
+		done := false
+		// a helper that receives the temporary name, called on every path to the rename, its error tested
+		for _, b := range gen.Blocks {
+			for _, in := range b.Instrs {
+				c, ok := in.(*ssa.Call)
+				if !ok || c.Call.StaticCallee() == nil || !p.isRepoFunc(c.Call.StaticCallee()) || len(c.Call.StaticCallee().Blocks) == 0 {
+					continue
+				}
+				callee := c.Call.StaticCallee()
+				for ai, a := range c.Call.Args {
+					if !isTmp(a) || ai >= len(callee.Params) {
+						continue
+					}
+					prm := callee.Params[ai]
+					okW, whyW := writesCompletely(callee, func(v ssa.Value) bool { return v == ssa.Value(prm) })
+					if !okW {
+						continue
+					}
+					onNilSide := false
+					for _, e := range errorValuesOfCall(c) {
+						for _, cd := range condsAt(rename) {
+							if is, nonNilOnTrue := nilTest(cd.V, e); is && nonNilOnTrue != cd.Pos {
+								onNilSide = true
+							}
+						}
+					}
+					if instrDominates(c, rename) && onNilSide {
+						done = true
+						r.Discharge("E5-ATOMIC", shortFn(gen), "written-before-rename", p.pos(rename.Pos()), "the rename follows a successful call of "+shortFn(callee)+" on the temporary name: "+whyW)
+					}
+				}
+			}
+		}
+		if !done {
+			okW, whyW := writesCompletely(gen, isTmp)
+			onNilSide := false
+			for _, b := range gen.Blocks {
+				for _, in := range b.Instrs {
+					if c, ok := in.(*ssa.Call); ok && c.Call.StaticCallee() != nil && c.Call.StaticCallee().Name() == "Write" && strings.Contains(c.Call.StaticCallee().String(), "dash-mpd/mpd.MPD") {
+						for _, e := range errorValuesOfCall(c) {
+							for _, cd := range condsAt(rename) {
+								if is, nonNilOnTrue := nilTest(cd.V, e); is && nonNilOnTrue != cd.Pos {
+									onNilSide = true
+								}
+							}
+						}
+						if !instrDominates(c, rename) {
+							onNilSide = false
+						}
+					}
+				}
+			}
+			closedBefore := false
+			for _, b := range gen.Blocks {
+				for _, in := range b.Instrs {
+					if isCloseCall(in) {
+						if _, isDefer := in.(*ssa.Defer); !isDefer && instrDominates(in, rename) {
+							closedBefore = true
+						}
+					}
+				}
+			}
+			switch {
+			case !okW:
+				r.Violate("E5-ATOMIC", shortFn(gen), "written-before-rename", p.pos(rename.Pos()), "the temporary file is not completely written before the rename: "+whyW, nil)
+			case !onNilSide:
+				r.Violate("E5-ATOMIC", shortFn(gen), "written-before-rename", p.pos(rename.Pos()), "the rename is reachable although writing the document failed or did not happen: a truncated MPD is published", nil)
+			case !closedBefore:
+				r.Violate("E5-ATOMIC", shortFn(gen), "written-before-rename", p.pos(rename.Pos()), "the temporary file is not closed between writing and renaming on every path (a deferred close runs after the rename)", nil)
+			default:
+				r.Discharge("E5-ATOMIC", shortFn(gen), "written-before-rename", p.pos(rename.Pos()), "created, written without error and closed on every path to the rename")
+			}
 		}
 	}
 	// (b) monotone latestSeqNr
